@@ -416,6 +416,33 @@ pub fn c07(ctx: &Ctx, rep: &mut Report) {
             ("let x = y <- 1 + 2", AST::variable(idn("x"), AST::assign_variable(idn("y"), AST::call_method(AST::Integer(1), idn("+"), vec![AST::Integer(2)])))),
             ("begin end", AST::Null),
             ("", AST::Null),
+            ("// only a comment", AST::Null),
+            ("/* only */ /* comments */", AST::Null),
+            ("007", AST::Integer(7)),
+            ("-0", AST::Integer(0)),
+            ("-2147483648", AST::Integer(i32::MIN)),
+            ("2147483647", AST::Integer(i32::MAX)),
+            ("a--1", AST::call_method(v("a"), idn("-"), vec![AST::Integer(-1)])),
+            ("a<-1", AST::assign_variable(idn("a"), AST::Integer(1))),
+            ("a < -1", AST::call_method(v("a"), idn("<"), vec![AST::Integer(-1)])),
+            ("a<=b>=c", AST::call_method(AST::call_method(v("a"), idn("<="), vec![v("b")]), idn(">="), vec![v("c")])),
+            ("x1y_2Z", v("x1y_2Z")),
+            ("_", v("_")),
+            ("object extends if a then b else c begin end", AST::object(AST::conditional(v("a"), v("b"), v("c")), vec![])),
+            ("object extends a + 1 begin let x = 1 end", AST::object(AST::call_method(v("a"), idn("+"), vec![AST::Integer(1)]), vec![AST::variable(idn("x"), AST::Integer(1))])),
+            ("print(\"a\\\"b\\\\c\", 1,)", AST::print("a\\\"b\\\\c".into(), vec![AST::Integer(1)])),
+            ("f(1,2,)", AST::call_function(idn("f"), vec![AST::Integer(1), AST::Integer(2)])),
+            ("function f(a,) -> a", AST::function(idn("f"), vec![idn("a")], v("a"))),
+            ("while a do if b then c", AST::loop_de_loop(v("a"), AST::conditional(v("b"), v("c"), AST::Null))),
+            ("if a then b else if c then d", AST::conditional(v("a"), v("b"), AST::conditional(v("c"), v("d"), AST::Null))),
+            ("let x = if a then b else c", AST::variable(idn("x"), AST::conditional(v("a"), v("b"), v("c")))),
+            ("a.b <- c.d <- 1", AST::assign_field(v("a"), idn("b"), AST::assign_field(v("c"), idn("d"), AST::Integer(1)))),
+            ("a[b[c]]", AST::access_array(v("a"), AST::access_array(v("b"), v("c")))),
+            ("(a)[1]", AST::access_array(v("a"), AST::Integer(1))),
+            ("begin 1 end.f", AST::access_field(AST::block(vec![AST::Integer(1)]), idn("f"))),
+            ("array(1,2)[0]", AST::access_array(AST::array(AST::Integer(1), AST::Integer(2)), AST::Integer(0))),
+            ("true.|(false)", AST::call_method(AST::Boolean(true), idn("|"), vec![AST::Boolean(false)])),
+            ("null == null != true", AST::call_method(AST::call_method(AST::Null, idn("=="), vec![AST::Null]), idn("!="), vec![AST::Boolean(true)])),
         ];
         for (src, expect) in fixed {
             rep.evaluations += 1;
